@@ -7,7 +7,7 @@ import ast
 from ..interp import cval, has_const
 from ..source import norm_text
 from .common import calls_in
-from .geo import under, uniq_events
+from .geo import KIND_ERRORS, under, uniq_events
 
 FT = 'gemdat.transitions.Transitions.from_trajectory'
 CTE = 'gemdat.transitions._calculate_transition_events'
@@ -55,6 +55,9 @@ def check(ctx):
                'array proven non-empty here' if not bad else
                f'`{norm_text(e["node"])}` is evaluated on an index array that can be empty (an atom that changes its outer '
                f'site but never its inner state): IndexError while building the event table')
+    for e in uniq_events(it, {'index_truthiness'}, inside):
+        ctx.ob('R1', e['where'], e['node'], False, KIND_ERRORS['index_truthiness'] + ': an atom whose only change happens between the first two '
+                                                   'frames is skipped, its events are missing')
     for e in uniq_events(it, {'wrap_filter_too_strict'}, inside):
         ctx.ob('R2', fi, e['node'], False, 'the mask that removes the wrap-around pseudo change also removes real changes at the last '
                                            'frames: a change between the last two frames is never reported')
